@@ -52,7 +52,49 @@ func (r *Runner) Do(op *Sexp, nontrivial bool, family string) string {
 	for _, m := range oracleFor(op, res) {
 		r.Oracle(op, m)
 	}
+	r.freshInstanceCheck(op, res)
 	return res
+}
+
+// freshInstanceCheck: the shared instances of a run have built thousands of
+// codecs, filled pools and intern tables; whatever they answer, an instance that
+// has seen nothing must answer the same (C10: independent of history; C17: an
+// instance is its options and registrations). One op in six is repeated on a
+// fresh instance with the same options and registrations.
+func (r *Runner) freshInstanceCheck(op *Sexp, res string) {
+	switch op.head() {
+	case "rt", "enc", "dec", "decm", "laws", "app", "desc", "build", "evolve", "mut", "alias":
+	default:
+		return
+	}
+	if len(op.List) < 3 || hash64(op.String())%6 != 0 || strings.HasPrefix(res, "bad-op") {
+		return
+	}
+	cfg := op.List[1]
+	freshSeq++
+	reg := L(A("reg"), A(hxs("MyI64")), A(hxs(fmt.Sprintf("fresh%d", freshSeq))), A("flat64"))
+	var cfg2 *Sexp
+	if cfg.IsL {
+		if cfg.head() != "cfg" {
+			return
+		}
+		cfg2 = L(append(append([]*Sexp{}, cfg.List...), reg)...)
+	} else {
+		cfg2 = L(A("cfg"), cfg, reg)
+	}
+	op2 := L(append([]*Sexp{op.List[0], cfg2}, op.List[2:]...)...)
+	res2 := execOp(op2)
+	delete(instances, cfg2.String())
+	if res2 != res {
+		r.Oracle(op, fmt.Sprintf("the result depends on what the instance did before: the run's shared instance gave %s, a fresh instance with the same options gives %s", clip(res, 300), clip(res2, 300)))
+	}
+}
+
+func clip(s string, n int) string {
+	if len(s) > n {
+		return s[:n] + "…"
+	}
+	return s
 }
 
 // oracleFor evaluates the property's direct statement on the implementation's
